@@ -56,66 +56,108 @@ def k_ratio(eng, provider):
                     ("ranges", "(and (<= 0 %s) (<= 0 %s 11) (<= 0 %s 29) (<= 0 %s 23) (= (mod %s 2) 0) (= %s 0) (= %s 0))" % (y, mo, d, h, h, mi, se))]
         return ctx, paths, pre, posts, shape
 
-    r = run_kernel(eng, "16.a/B/ratio/%s" % provider, "16.a", "every difference |S| <= 32 days between birth and the governing Jie instant", build, None, None)
+    def replay(eng, model):
+        try:
+            S = [int(v) for k, v in model.items() if "SolarTime::subtract" in k][0]
+        except Exception as e:
+            return False, "model incomplete %r" % e
+        nat = eng.native("child_ratio", {"Default": 0, "China95": 1, "LunarSect2": 2}[provider], S)
+        if nat == "PANIC":
+            return True, "get_info panics for a difference of %d s" % S
+        y, mo, d, h, mi = [int(t) for t in nat.split()]
+        a = abs(S)
+        if provider == "Default":
+            ok = y * 259200 + mo * 21600 + d * 720 + h * 30 + mi // 2 == a and mo < 12 and d < 30 and h < 24 and mi < 60 and mi % 2 == 0
+        elif provider == "China95":
+            ok = 0 <= a // 60 - (y * 4320 + mo * 360 + d * 12) < 12 and mo < 12 and d < 30 and h == 0 and mi == 0
+        else:
+            ok = y * 4320 + mo * 360 + d * 12 + h // 2 == a // 60 and mo < 12 and d < 30 and h < 24 and h % 2 == 0 and mi == 0
+        return (not ok), "%s limit for a difference of %d s: %d y %d m %d d %d h %d min" % (provider, S, y, mo, d, h, mi)
+
+    r = run_kernel(eng, "16.a/B/ratio/%s" % provider, "16.a", "every difference |S| <= 32 days between birth and the governing Jie instant", build, None, replay)
     return _finish(r, holder["ctx"]) if "ctx" in holder else r
 
 
 def k_addition(eng):
-    """AbstractChildLimitProvider::next: carry of seconds/minutes/hours into days and of days through month lengths (loop unrolled, bound proved)"""
+    """AbstractChildLimitProvider::next: carry of seconds/minutes/hours into days and of days through month lengths (loop unrolled,
+    bound proved).  Months are modelled by their ordinal 12*year + month - 1 (SolarMonth::from_ym / next / get_year / get_month: C11
+    11.b), their lengths are arbitrary 21..31 (C01 01.h): the specification only looks at what reaches SolarTime::from_ymd_hms."""
     holder = {}
 
     def build(eng):
+        from .objmodel import Obj
         fn = M.find_fn(eng.fns, "next", "&AbstractChildLimitProvider")
         ctx = _ctx(eng, {})
         ctx.max_unroll = 5
         rec = Rec(ctx, "self", "AbstractChildLimitProvider")
         birth = Rec(ctx, "birth", "SolarTime")
         adds = [ctx.fresh_value(n, "usize") for n in ("add_year", "add_month", "add_day", "add_hour", "add_minute", "add_second")]
+        B = {k: ctx.fresh_value("birth." + k, ty) for k, ty in (("year", "isize"), ("month", "usize"), ("day", "usize"), ("hour", "usize"), ("minute", "usize"), ("second", "usize"))}
         holder.update(ctx=ctx)
+        model = ctx.model
+        base = model.call
+        dcs_all = []
+
+        def call(c, fr, callee, args, path):
+            a = [model.deref(c, x) for x in args]
+            g = {"SolarTime::get_year": "year", "SolarTime::get_month": "month", "SolarTime::get_day": "day", "SolarTime::get_hour": "hour", "SolarTime::get_minute": "minute", "SolarTime::get_second": "second"}
+            if callee in g and a and a[0] is birth:
+                return True, B[g[callee]]
+            if callee == "SolarMonth::from_ym" and isinstance(a[0], T) and isinstance(a[1], T):
+                return True, Obj("SolarMonth", T("(+ (* 12 %s) (- %s 1))" % (a[0].s, a[1].s), "Int"))
+            if a and isinstance(a[0], Obj) and a[0].kind == "SolarMonth":
+                t = a[0].idx
+                if callee == "<SolarMonth as Tyme>::next" and isinstance(a[1], T):
+                    return True, Obj("SolarMonth", T("(+ %s %s)" % (t.s, a[1].s), "Int"))
+                if callee == "SolarMonth::get_year":
+                    return True, T("(div %s 12)" % t.s, "Int")
+                if callee == "SolarMonth::get_month":
+                    return True, T("(+ (mod %s 12) 1)" % t.s, "Int")
+                if callee == "SolarMonth::get_day_count":
+                    v = c.fresh_value("month_length", "usize")
+                    dcs_all.append(v)
+                    return True, v
+            return base(c, fr, callee, args, path)
+        model.call = call
         paths = ctx.run(fn, [("refrec", rec), birth] + adds)
         ay, am, ad, ah, ami, asec = [x.s for x in adds]
-        pre = ["(<= 0 %s 12)" % ay, "(<= 0 %s 11)" % am, "(<= 0 %s 30)" % ad, "(<= 0 %s 23)" % ah, "(<= 0 %s 59)" % ami, "(<= 0 %s 59)" % asec]
-        for p in paths:
-            for c in p.calls:
-                v = c[2]
-                if not isinstance(v, T):
-                    continue
-                rng = {"SolarTime::get_day": (1, 31), "SolarTime::get_hour": (0, 23), "SolarTime::get_minute": (0, 59), "SolarTime::get_second": (0, 59),
-                       "SolarMonth::get_day_count": (21, 31), "SolarTime::get_year": (1, 9980), "SolarTime::get_month": (1, 12)}.get(c[0])
-                if rng:
-                    pre.append("(<= %d %s %d)" % (rng[0], v.s, rng[1]))
+        pre = ["(<= 0 %s 12)" % ay, "(<= 0 %s 11)" % am, "(<= 0 %s 30)" % ad, "(<= 0 %s 23)" % ah, "(<= 0 %s 59)" % ami, "(<= 0 %s 59)" % asec,
+               "(<= 1 %s 9980)" % B["year"].s, "(<= 1 %s 12)" % B["month"].s, "(<= 1 %s 31)" % B["day"].s, "(<= 0 %s 23)" % B["hour"].s, "(<= 0 %s 59)" % B["minute"].s, "(<= 0 %s 59)" % B["second"].s]
+        for v in dcs_all:
+            pre.append("(<= 21 %s 31)" % v.s)
 
         def shape(p):
             if getattr(p, "cut", False):
                 return None
-            names = [c[0] for c in p.calls]
-            if names[:4] != ["SolarTime::get_day", "SolarTime::get_hour", "SolarTime::get_minute", "SolarTime::get_second"]:
-                return "unexpected start of call sequence %s" % names[:4]
-            if "SolarMonth::from_ym" not in names or names[-1] != "SolarTime::from_ymd_hms":
-                return "unexpected call sequence %s" % names
+            if not p.calls or p.calls[-1][0] != "SolarTime::from_ymd_hms":
+                return "the result is not built by SolarTime::from_ymd_hms"
+            if not [c for c in p.calls if c[0] == "SolarMonth::get_day_count"]:
+                return "no month length is consulted"
             return None
 
         def posts(p):
             if getattr(p, "cut", False):
                 return []
-            cs = {c[0]: c for c in p.calls}
-            bd, bh, bmi, bs = [p.calls[k][2].s for k in range(4)]
             ctor = p.calls[-1]
-            d2, h2, mi2, s2 = [x.s for x in ctor[1][2:6]]
+            Y, Mo, d2, h2, mi2, s2 = [x.s for x in ctor[1][0:6]]
             dcs = [c[2].s for c in p.calls if c[0] == "SolarMonth::get_day_count"]
             consumed = dcs[:-1]
-            tot = "(+ (* 86400 (+ %s %s)) (* 3600 (+ %s %s)) (* 60 (+ %s %s)) (+ %s %s))" % (bd, ad, bh, ah, bmi, ami, bs, asec)
+            tot = "(+ (* 86400 (+ %s %s)) (* 3600 (+ %s %s)) (* 60 (+ %s %s)) (+ %s %s))" % (B["day"].s, ad, B["hour"].s, ah, B["minute"].s, ami, B["second"].s, asec)
             dsum = "(+ %s %s)" % (d2, " ".join(consumed)) if consumed else d2
-            fy = cs["SolarMonth::from_ym"]
-            steps = [c for c in p.calls if c[0] == "<SolarMonth as Tyme>::next"]
-            out = [("clock", "(and (<= 0 %s 23) (<= 0 %s 59) (<= 0 %s 59))" % (h2, mi2, s2)),
-                   ("total", "(= (+ (* 86400 %s) (* 3600 %s) (* 60 %s) %s) %s)" % (dsum, h2, mi2, s2, tot)),
-                   ("day-in-month", "(and (<= 1 %s) (<= %s %s))" % (d2, d2, dcs[-1])),
-                   ("start-month", "(and (= %s (+ %s %s)) (= %s %s))" % (fy[1][0].s, cs["SolarTime::get_year"][2].s, ay, fy[1][1].s, cs["SolarTime::get_month"][2].s)),
-                   ("month-steps", "(and (= %s %s) %s)" % (steps[0][1][1].s, am, " ".join("(= %s 1)" % c[1][1].s for c in steps[1:]) if len(steps) > 1 else "true"))]
-            return out
+            start = "(+ (* 12 (+ %s %s)) (- %s 1) %s)" % (B["year"].s, ay, B["month"].s, am)
+            return [("clock", "(and (<= 0 %s 23) (<= 0 %s 59) (<= 0 %s 59))" % (h2, mi2, s2)),
+                    ("total", "(= (+ (* 86400 %s) (* 3600 %s) (* 60 %s) %s) %s)" % (dsum, h2, mi2, s2, tot)),
+                    ("day-in-month", "(and (<= 1 %s) (<= %s %s))" % (d2, d2, dcs[-1])),
+                    ("end-month", "(and (<= 1 %s 12) (= (+ (* 12 %s) (- %s 1)) (+ %s %d)))" % (Mo, Y, Mo, start, len(consumed)))]
         return ctx, paths, pre, posts, shape
 
+    def replay(eng, model):
+        # the additions are not free inputs of the public API: confirm on real births (3 years, 3 clock times a day, both genders)
+        nat = eng.native("child_add_scan", 1990, 3)
+        if nat == "NONE":
+            return False, "no birth 1990-1992 shows a wrong calendar addition"
+        return True, "ChildLimit end instant is not birth + counts: " + nat
+
     r = run_kernel(eng, "16.c/B/addition", "16.c", "birth clock/day any, additions up to 12 y, 11 m, 30 d, 23 h, 59 min, 59 s; month lengths any 21..31; month-carry loop unrolled 5 times with the bound proved",
-                   build, None, None)
+                   build, None, replay)
     return _finish(r, holder["ctx"]) if "ctx" in holder else r
